@@ -2537,15 +2537,26 @@ func (g *IG) loopBypass(n int) (path []int, ok bool) {
 	}
 	hdr := ls[0]
 	_, body := loopOf(hdr)
-	var starts []int
-	for _, sb := range hdr.Succs {
-		if body[sb] && sb != hdr {
-			if k, okF := g.First[sb]; okF {
-				starts = append(starts, k)
-			}
-		}
+	h0, okF := g.First[hdr]
+	if !okF {
+		return nil, false
 	}
 	same := func(k int) bool { return g.Ins[k] != nil && g.Ins[k] == g.Ins[n] }
-	inHdr := func(k int) bool { return g.Ins[k] != nil && g.Ins[k].Block() == hdr }
-	return g.Path(starts, nil, same, inHdr), true
+	if same(h0) {
+		return nil, true
+	}
+	// once round the loop: from the first instruction of the loop's entry block
+	// back to it, through the loop's own blocks (and what is spliced into them)
+	// only, without passing n. (Whether the loop tests at the top or, rotated, at
+	// the bottom makes no difference.)
+	outside := func(k int) bool {
+		in := g.Ins[k]
+		if in == nil || in.Block() == nil {
+			return false
+		}
+		b := in.Block()
+		return b.Parent() == hdr.Parent() && !body[b]
+	}
+	back := func(k int) bool { return g.Ins[k] != nil && g.Ins[k] == g.Ins[h0] }
+	return g.Path(g.Succ[h0], nil, func(k int) bool { return same(k) || outside(k) }, back), true
 }
